@@ -6,7 +6,7 @@
 From SV Require Import Model.Rows Model.Chunk Model.OverlapKernels Model.Overlap.
 From SV Require Import Spec.WindowLocal Spec.OverlapSpec.
 From SV Require Import Proof.OverlapBasic Proof.OverlapProof Proof.WindowLocalProof Proof.OverlapExamples.
-From SV Require Import Proof.OverlapAligned.
+From SV Require Import Proof.OverlapAligned Proof.GroupLocalProof Proof.OverlapCorollaries.
 
 (* For disjoint sorted positive-length input rows R, EVERY contiguous well-formed chunking cs of the
    run (chunks shorter than the window, rows longer than the window, empty and zero-duration chunks),
@@ -34,6 +34,35 @@ Theorem C09_neighbour_count_window_local : forall kl kr,
   0 <= kl -> 0 <= kr -> window_local kl kr (f_count kl kr).
 Proof. exact f_count_window_local. Qed.
 Print Assumptions C09_neighbour_count_window_local.
+
+(* One output per gap-separated group (rows whose gap to the previous row is <= G are merged; the
+   output spans the group) is window-local with margins (G, G). *)
+Theorem C09_group_former_window_local : forall G, 0 <= G -> window_local G G (f_group G).
+Proof. exact f_group_window_local. Qed.
+Print Assumptions C09_group_former_window_local.
+
+(* The main theorem for the two concrete plugins of the correspondence harness. *)
+Theorem C09_neighbour_count_chunking_independent :
+  forall kl kr wtuple wl wr odt okind orun otgt sw R a b dt run cs,
+  0 <= kl -> 0 <= kr -> kl <= 2 * wl -> kr <= 2 * wr ->
+  dsp R -> chunking_of R a b dt run cs ->
+  exists outs,
+    ow_iter (single_params (f_count kl kr) wtuple wl wr odt okind orun otgt sw) cs = Ok (as_items outs) /\
+    flat_map crows outs = f_count kl kr R /\
+    contiguous_from a outs /\ last_end a outs = b /\ Forall wf outs.
+Proof. exact count_chunking_independent. Qed.
+Print Assumptions C09_neighbour_count_chunking_independent.
+
+Theorem C09_group_former_chunking_independent :
+  forall G wtuple wl wr odt okind orun otgt sw R a b dt run cs,
+  0 <= G -> G <= 2 * wl -> G <= 2 * wr ->
+  dsp R -> chunking_of R a b dt run cs ->
+  exists outs,
+    ow_iter (single_params (f_group G) wtuple wl wr odt okind orun otgt sw) cs = Ok (as_items outs) /\
+    flat_map crows outs = f_group G R /\
+    contiguous_from a outs /\ last_end a outs = b /\ Forall wf outs.
+Proof. exact group_chunking_independent. Qed.
+Print Assumptions C09_group_former_chunking_independent.
 
 (* Multi-output plugins (cache_beyond over several outputs), for ANY user computations and any input:
    whenever iter completes, all chunks of one yielded item (including the final flush) share one
